@@ -79,15 +79,16 @@ def _cases(draw, tier):
             "include_drf": True, "include_dmd": True, "start": None, "end": None}
     # optionally one I/O fault: the n-th publishing rename inside the destination fails with EIO
     case["fault"] = draw(st.sampled_from([None, None, None, 0, 1, 2, 3, 5, 8]))
-    sel = draw(st.integers(0, 7))
+    sel = draw(st.integers(0, 9))
     if sel == 0:
         case["include_dmd"] = False
     elif sel == 1:
         case["include_drf"] = False
-    elif sel == 2:
+    elif sel in (2, 3):
         case["start"] = (T0 + draw(st.integers(1, 4))) * 1000
-    elif sel == 3:
-        case["end"] = (T0 + draw(st.integers(2, 6))) * 1000
+    elif sel in (4, 5, 6):
+        # an end time: later files (RF and metadata) are outside the mirror's window and must be left alone
+        case["end"] = (T0 + draw(st.integers(1, 5))) * 1000
     return case
 
 
@@ -173,8 +174,12 @@ class World:
             if "@" in base and base.count(".") == 1 and not base.startswith("tmp."):
                 # a metadata data file: identical copy must already be in the destination
                 d = os.path.join(self.dest, rel)
+                dt = os.path.join(self.dest, os.path.dirname(rel), "tmp." + os.path.basename(rel))
                 try:
                     same = os.path.isfile(d) and sha(d) == sha(removing)
+                    if not same and rel in self.faulted:
+                        # the publishing rename was made to fail: the intact copy sits under its tmp. name
+                        same = os.path.isfile(dt) and sha(dt) == sha(removing)
                 except OSError:
                     same = False
                 if not same:
